@@ -88,6 +88,8 @@ _scenario('files', files=[(CWD + '/out.txt', 'text', None), (CWD + '/sub dir/it\
                           (TMP + '/scratch/tmp out.txt', 'text', None), (CWD + '/2nd-file.txt', 'text', None)])
 _scenario('files-same-name', files=[(CWD + '/out.txt', 'text', None), ('/other/out.txt', 'text', None), (CWD + '/a/out_txt', 'text', None)],
           ref_map={'/other/out.txt': CWD + '/ref/cmd/out.txt1'})
+_scenario('files-named-like-the-fixed-tests', files=[(CWD + '/stdout', 'text', None), (CWD + '/out/exit_code', 'text', None), (CWD + '/stderr', 'text', None)],
+          ref_map={CWD + '/stdout': CWD + '/ref/cmd/stdout1', CWD + '/stderr': CWD + '/ref/cmd/stderr1'})
 _scenario('exclusions', files=[(CWD + '/log.txt', 'text', None)], tmpdir_used=True,   # a line naming the temporary directory was seen
          
           exclusions={'STDOUT': (['^took \\d+\\.\\d+s$', '^it\'s "quoted" \\[x\\]$', '^both \'\'\' and """ here$'],
@@ -182,13 +184,13 @@ def read_back(text):
     if len(classes) != 1:
         raise ValueError('%d classes in the script' % len(classes))
     c = classes[0]
-    out = {'doc': ast.get_docstring(tree, clean=False), 'class': c.name, 'assign': {}, 'tests': {}}
+    out = {'doc': ast.get_docstring(tree, clean=False), 'class': c.name, 'assign': {}, 'tests': {}, 'dup': []}
     for b in c.body:
         if isinstance(b, ast.Assign) and len(b.targets) == 1 and isinstance(b.targets[0], ast.Name):
             out['assign'][b.targets[0].id] = b.value
         if isinstance(b, ast.FunctionDef) and b.name.startswith('test'):
             if b.name in out['tests']:
-                raise ValueError('test %s is defined twice' % b.name)
+                out['dup'].append(b.name)        # the later definition replaces the earlier one: a test is lost (a C12 matter)
             out['tests'][b.name] = b
     out['bound'] = {t.id for n in ast.walk(c) if isinstance(n, ast.Assign) for t in n.targets if isinstance(t, ast.Name)}
     out['bound'] |= {x.attr for n in ast.walk(c) for x in ast.walk(n) if isinstance(x, ast.Attribute) and isinstance(x.ctx, ast.Store)
@@ -326,6 +328,8 @@ def run_rule(run, p, pid):
         for fixed in ('test_no_exception', 'test_exit_code'):
             if fixed not in rb['tests']:
                 problems.append('%s is missing' % fixed)
+        for nm in rb['dup']:
+            problems.append('%s is defined twice: the second definition replaces the first, so one of the two checks never runs' % nm)
         got = set(rb['tests'])
         run.ob(rid, key + ':tests', not problems, 'scenario %s: %s' % (sc['name'], '; '.join(problems) or 'tests %s' % sorted(got)), fn=ws)
         # exit status and exception tests
